@@ -29,6 +29,10 @@ BIND = "qlassfun.UnboundQlassf.bind"
 
 
 def run(ctx: Ctx):
+    # the injected `name = value` assignments take effect through the rewriter's table of compile-time constants
+    from . import c01 as _c01
+
+    ctx.section(_c01.check_const_table, ctx)
     from .. import memo as _memo
 
     ctx.section(_memo.check_memo_keys, ctx, ('qlassfun.UnboundQlassf', 'qlassfun.QlassF.from_function', 'qlassfun.is_parameter', 'ast2ast.', 'types.parameter'))
